@@ -258,6 +258,11 @@ class Tr:
         return None
 
     def attr(self, e, pre):
+        if e.attr == "tm_year" and ast.unparse(e.value) == "time.localtime()" and self.spec.self_type == "InfoInit":
+            return "now_year", "Int"                                  # the current year: a parameter
+        if self.spec.self_type == "InfoInit" and isinstance(e.value, ast.Name) and e.value.id == "self" \
+                and e.attr in ["JUMP", "WEEKDAYS", "MONTHS", "HMS", "AMPM", "UTCZONE", "PERTAIN"]:
+            return "tables.%s" % e.attr, "ClassTable"               # a class attribute (word list)
         if isinstance(e.value, ast.Name) and e.value.id == "string" and e.attr == "ascii_uppercase":
             return "string.ascii_uppercase", "AsciiUpper"            # only as the right operand of `in`
         base, bty = self.E(e.value, pre)
@@ -319,6 +324,8 @@ class Tr:
                 return "(%s %s %s)" % (self.coerce(l, tl, "Int"), sym, self.coerce(r, tr, "Int")), "Int"
             if op is ast.Sub:
                 return "(%s - %s)" % (self.coerce(l, tl, "Int"), self.coerce(r, tr, "Int")), "Int"
+            if op is ast.FloorDiv and isinstance(e.right, ast.Constant) and isinstance(e.right.value, int) and e.right.value > 0:
+                return "(%s / %s)" % (self.coerce(l, tl, "Int"), self.coerce(r, tr, "Int")), "Int"
         raise Untranslatable("binop %s on %s, %s" % (op.__name__, tl, tr))
 
     def index_int(self, e, pre):
@@ -564,6 +571,10 @@ class Tr:
                 kx, tk = self.E(e.args[0], pre)
                 if tk != "Tok": raise Untranslatable("dict.get(%s)" % tk)
                 return "(PM.lookupLast %s %s)" % (recv, kx), "OptInt"
+            if rt == "Info" and f.attr == "_convert" and len(e.args) == 1:
+                a, ta = self.E(e.args[0], pre)
+                if ta != "ClassTable": raise Untranslatable("_convert(%s)" % ta)
+                return "(PM.convertGroups %s)" % a, "TokNatDict"        # `_convert`: a named primitive (Model/Parser.lean)
             if rt == "Info" and f.attr == "tzoffset" and len(e.args) == 1:
                 a, ta = self.E(e.args[0], pre)
                 a = self.coerce(a, ta, "Tok", pre) if ta != "OptTok" else self.opt_tok(a, pre)
@@ -1248,6 +1259,11 @@ class Tr:
         if isinstance(target, ast.Attribute) and isinstance(target.value, ast.Name):
             obj = target.value.id
             oty = self.types.get(obj)
+            if oty == "Info" and self.spec.self_type == "InfoInit" and target.attr in INFO_FIELDS:
+                f, fty = INFO_FIELDS[target.attr]
+                if fty == "TokSet" and ty == "TokNatDict": t, ty = "(List.map Prod.fst %s)" % t, "TokSet"      # only the keys are ever asked
+                if fty != ty: t = self.coerce(t, ty, fty, pre)
+                return self.wrap(pre, "let %s := { %s with %s := %s }\n%s" % (obj, obj, f, t, nxt()))
             tbl = {"Ymd": YMD_FIELDS, "Res": RES_FIELDS}.get(oty)
             if tbl is None or target.attr not in tbl: raise Untranslatable("assignment to %s.%s" % (oty, target.attr))
             f, fty = tbl[target.attr]
@@ -1372,6 +1388,10 @@ class Tr:
         if sp.self_type in ("Ymd", "Info"):
             params.append("(self : %s)" % lty(sp.self_type))
             self.types["self"] = sp.self_type
+        elif sp.self_type == "InfoInit":
+            params.append("(tables : PPy.InfoTables) (now_year : Int)")
+            self.types["self"] = "Info"
+            self.init_head = "let self : PM.Info := PPy.infoOfClass tables\n"
         elif sp.self_type == "Parser":
             params.append("(info : PM.Info)")
             self.types["self"] = "Parser"
@@ -1442,6 +1462,7 @@ class Tr:
             live = set()
         body = self.B(stmts, k, live)
         if getattr(self, "uses_fuel", False): params.insert(0, "(fuel : Nat)")
+        body = getattr(self, "init_head", "") + body
         return "".join(self.aux) + "/-- translated from `%s:%s`%s -/\ndef %s %s : Py.R (%s) :=\n%s\n" % (
             relfile, sp.qualname, " (%s)" % ", ".join("%s : %s" % p for p in sp.params) if sp.params else "",
             sp.leanname, " ".join(params), lty(sp.ret), body)
@@ -1485,6 +1506,8 @@ PARSER_SPECS = [
     PFn("parserinfo.pertain", "info_pertain", [("name", "Tok")], "Bool", **INFO),
     PFn("parserinfo.utczone", "info_utczone", [("name", "Tok")], "Bool", **INFO),
     PFn("parserinfo.tzoffset", "info_tzoffset", [("name", "Tok")], "OptInt", **INFO),
+    PFn("parserinfo.__init__", "info_init", [("dayfirst", "Bool"), ("yearfirst", "Bool")], "Info", self_type="InfoInit",
+        returns="self"),
     PFn("parserinfo.validate", "info_validate", [("res", "Res")], "Res", returns="res", **INFO),
     # ---- parser: the small methods
     PFn("parser._could_be_tzname", "couldBeTzname", [("hour", "OptNat"), ("tzname", "OptTok"), ("tzoffset", "OptInt"),
